@@ -67,6 +67,15 @@ MUTATIONS = {
         [("flox/dask_array_ops.py", "        dummy = dict(i for i in enumerate(p) if i[0] in split_every)\n",
           "        dummy = dict((i, tuple(reversed(j)) if block_index is None else j) for i, j in enumerate(p) if i in split_every)\n")],
     ),
+    "factorize_no_copy": (
+        ["C13", "C14"],
+        [("flox/core.py", "        idx = flat.copy()\n", "        idx = flat\n")],
+    ),
+    "nan_subst_inplace": (
+        ["C13", "C14"],
+        [("flox/aggregate_flox.py", "result = func(group_idx, np.where(isnull(array), fillna, array), *args, **kwargs)",
+          "array[isnull(array)] = fillna; result = func(group_idx, array, *args, **kwargs)")],
+    ),
     "nanmin_combine_min": (
         ["C04"],
         [("flox/aggregations.py", '    chunk="nanmin",\n    combine="nanmin",', '    chunk="nanmin",\n    combine="min",')],
